@@ -14,6 +14,7 @@ import (
 //   gates       control messages and transient data with and without the permissions
 //   random      PRNG histories over all ops, 4 sessions, 2 rooms
 //   malformed   random histories with lines that are not ops sprinkled in
+//   storm       permission updates racing with offers, candidates and in-call changes of the same session
 
 var vC08PublishSets = []string{"-", "m", "a", "v", "s", "av", "ma", "mv", "ms", "as", "vs", "mav", "mas", "mvs", "avs", "mavs"}
 var vC08OtherSets = []string{"c", "t", "ct", "h", "x", "mavsct", "avct", "sc", "mt", "hx"}
@@ -300,7 +301,7 @@ func vC08Gen(e *vEnv, r0 *vRand) []vCase {
 			add(vC08Matrix(r.fork(), p, 2), "matrix")
 		}
 	}
-	nrev := e.scale(70, 3000)
+	nrev := e.scale(200, 6000)
 	if e.thorough() {
 		for _, p0 := range vC08PublishSets {
 			for _, p1 := range vC08PublishSets {
@@ -321,13 +322,22 @@ func vC08Gen(e *vEnv, r0 *vRand) []vCase {
 		}
 		add(vC08Revoke(rr, p0, p1, rr.intn(3)), "revoke")
 	}
-	for i, n := 0, e.scale(60, 3000); i < n; i++ {
+	for i, n := 0, e.scale(150, 6000); i < n; i++ {
 		add(vC08SameCall(r.fork()), "samecall")
 	}
-	for i, n := 0, e.scale(40, 1500); i < n; i++ {
+	for i, n := 0, e.scale(100, 3000); i < n; i++ {
 		add(vC08Gates(r.fork()), "gates")
 	}
-	n := e.scale(120, 6000)
+	for i, k := 0, e.scale(40, 1500); i < k; i++ {
+		rr := r.fork()
+		ops := []string{"join 0 1 " + rr.pick(vC08PublishSets), "join 1 1 mavs", "incall 0 . 1", "incall 1 . 1"}
+		if rr.chance(1, 2) {
+			ops = append(ops, "offer 0 video av", "offer 0 screen v")
+		}
+		ops = append(ops, fmt.Sprintf("storm 0 %s %d %d", rr.pick(vC08PublishSets), rr.u64()>>1, 4+rr.intn(40)))
+		add(ops, "storm")
+	}
+	n := e.scale(400, 15000)
 	maxOps := e.scale(30, 50)
 	for i := 0; i < n; i++ {
 		rr := r.fork()
